@@ -365,6 +365,7 @@ def do_slice(world, rep, op):
         st, h = call(dn.time_slice, g, a, b) if b is not None or op.get('pass_none') else call(dn.time_slice, g, a)
     else:
         st, h = call(g.time_slice, a, b) if b is not None or op.get('pass_none') else call(g.time_slice, a)
+    world.last_derived = h if st == 'ok' else None
     post = obs.full(g, lo, hi)
     d = obs.diff(pre, post)
     if d:
@@ -455,6 +456,7 @@ def do_convert(world, rep, op):
         st, h = call(g.to_directed)
         hm = m.to_directed()
         cls = dn.DynDiGraph
+        world.last_derived = h if st == 'ok' else None
     else:
         if not m.directed:
             return {'out': 'skipped', 'fault': False, 'cls': 'skip', 'keys': []}
@@ -463,6 +465,7 @@ def do_convert(world, rep, op):
             call(g.to_undirected) if op.get('default_arg') else call(g.to_undirected, reciprocal=False))
         hm = m.to_undirected(rec)
         cls = dn.DynGraph
+    world.last_derived = h if st == 'ok' else None
     if st != 'ok':
         raise Violation('C16.raises', exc_class(h), {'op': op, 'msg': str(h)})
     post = obs.full(g, lo, hi)
@@ -541,3 +544,20 @@ def do_mutate_attr(world, rep, op):
         raise ValueError(kind)
     world.count('fault.F-ALIAS.' + kind)
     return {'out': 'ok', 'fault': False, 'cls': 'alias', 'keys': []}
+
+
+def do_slice_acc(world, rep, op):
+    """C03 only: a slice taken from an accumulative graph is a graph the library produced, so its
+    timelines must be canonical and their union must be the presence the slice itself reports
+    (what the slice must contain is not defined by any property and is not judged)"""
+    from . import oracles
+    g, m = rep.g, rep.m
+    if m.removal:
+        return {'out': 'skipped', 'fault': False, 'cls': 'skip', 'keys': []}
+    a, b = op['t_from'], op['t_to']
+    st, h = call(g.time_slice, a, b) if op.get('form') != 'func' else call(dn.time_slice, g, a, b)
+    if st != 'ok':
+        return {'out': exc_class(h), 'fault': True, 'cls': 'slice-acc-rejected', 'keys': []}
+    world.evals += oracles.c03_intrinsic(h, min(a, b) - 2, max(a, b) + 2)
+    world.count('slice.of-accumulative')
+    return {'out': 'ok', 'fault': False, 'cls': 'slice-acc', 'keys': []}
